@@ -227,6 +227,55 @@ def install_vec():
     fte.cache_func = cache_func
 
 
+def install_delay():
+    """M-delay: per call of _add_edge_buffer record requested (delay, spread) and the emitted chain orders / rates;
+    assert mean delay order/rate == requested delay for every gamma-kernel edge."""
+    if _state.get('delay_installed'):
+        return
+    _state['delay_installed'] = True
+    from pyrates.ir import circuit as irc
+    NG = irc.NetworkGraph
+    orig = NG._add_edge_buffer
+
+    @functools.wraps(orig)
+    def add_edge_buffer(self, node, op, var, edges, delays, nodes, spreads=None, dde_approx=0, buffer_id=""):
+        before = set(self[node][op]['variables'].keys()) if delays else set()
+        r = orig(self, node, op, var, edges=edges, delays=delays, nodes=nodes, spreads=spreads, dde_approx=dde_approx,
+                 buffer_id=buffer_id)
+        if not delays:
+            return r
+        try:
+            vars_ = self[node][op]['variables']
+            new = {k: v for k, v in vars_.items() if k not in before}
+            branch = 'ode_chain' if (spreads or dde_approx) else ('ring' if not self.step_size_adaptation else 'past')
+            _cnt('mdelay_' + branch)
+            if spreads:
+                rates = {k: v['value'] for k, v in new.items() if k.startswith('k_d')}
+                stages = {}
+                for k in new:
+                    m = __import__('re').match(r'^%s_d(\d+)_(\d+)' % __import__('re').escape(var), k)
+                    if m:
+                        stages[int(m.group(1))] = max(stages.get(int(m.group(1)), 0), int(m.group(2)))
+                emitted = sorted((stages[c], float(rates.get(f'k_d{c}{buffer_id}', float('nan')))) for c in stages)
+                wanted = sorted({(int(round((d / s) ** 2)), round(int(round((d / s) ** 2)) / d, 9))
+                                 for d, s in zip(delays, spreads) if s and d and int(round((d / s) ** 2)) > 0})
+                _event(('mdelay', node, op, var, list(delays), list(spreads), emitted))
+                for n_order, rate in emitted:
+                    _cnt('mdelay_chains')
+                    mean = n_order / rate if rate else float('inf')
+                    if not any(abs(mean - d) <= 1e-9 * max(1.0, abs(d)) for d in delays):
+                        _viol(f"M-delay: emitted chain of order {n_order} and rate {rate} has mean delay {mean}, "
+                              f"requested delays {list(delays)} (spreads {list(spreads)})")
+                if sorted((n, round(r_, 9)) for n, r_ in emitted) != wanted:
+                    _viol(f"M-delay: emitted (order, rate) chains {emitted} != required {wanted} for delays "
+                          f"{list(delays)} spreads {list(spreads)}")
+        except Exception as e:  # monitor must never break the run
+            _cnt('mdelay_monitor_errors')
+        return r
+
+    NG._add_edge_buffer = add_edge_buffer
+
+
 def reset_vec():
     _state['vec_alloc'] = {}
 
